@@ -78,6 +78,9 @@ func runC11(c *core.Ctx) {
 	rx := &codecs.VP8Packet{}
 	mtu := 5 + []int{7, 0, 1, 3, 30, 1195}[t.Intn(6)] + t.Intn(3)
 	nframes := 1 + t.Intn(60)
+	if t.Chance(1, 8) {
+		nframes = 120 + t.Intn(200) // far enough for the 7-bit -> 15-bit switch to happen on fragmented frames
+	}
 	if wrap {
 		nframes = 33000
 	}
@@ -105,7 +108,7 @@ func runC11(c *core.Ctx) {
 		if wrap {
 			f = []byte{byte(k)}
 		} else {
-			f = t.Bytes(nalSize(t, mtu, 1, 4))
+			f = t.Bytes(nalSize(t, mtu, 1, []int{1, 3, 4}[t.Intn(3)])) // multiples of the fragment size for each descriptor size
 		}
 		if len(sizeFP) < 6 {
 			sizeFP = append(sizeFP, uint64((len(f)+mtu-2)/(mtu-1)))
